@@ -38,7 +38,9 @@ def body_for(d):
         msg = b'boom'
         return 0x00, struct.pack('>iH', 0x0000, len(msg)) + msg   # ERROR ServerError
     if d == 'DSupported':
-        return 0x06, struct.pack('>H', 0)
+        st = lambda x: struct.pack('>H', len(x)) + x
+        return 0x06, (struct.pack('>H', 2) + st(b'CQL_VERSION') + struct.pack('>H', 1) + st(b'3.4.5')
+                      + st(b'COMPRESSION') + struct.pack('>H', 0))
     if d in ('CpPage', 'CpLast'):
         fl = 0x40000000 | (0x80000000 if d == 'CpLast' else 0)
         st = lambda x: struct.pack('>H', len(x)) + x
@@ -195,6 +197,18 @@ def make_conn_class():
             self.h._on_get_request_id(self)
             return Connection.get_request_id(self)
 
+        def reset_idle(self):
+            h = self.h
+            Connection.reset_idle(self)
+            if h is not None and h.in_hb_round:
+                if h.hb_waited_ok:
+                    h.hb_waited_ok = False
+                    h.owed_tokens.discard(h.hb_tok)
+                    h.emit('HbDone')
+                else:
+                    h.emit('HbSkipBusy')
+                h.checkpoint()
+
     return NoSockConnection
 
 
@@ -251,6 +265,10 @@ class Harness(object):
         self.in_query = False
         self.quiescent_points = []
         self.race_exercised = False
+        self.in_hb_round = False
+        self.hb_waited_ok = False
+        self.hb_seq = 0
+        self.hb_tok = None
         self.Conn = make_conn_class()
         self.Conn.h = None
         self.session = FakeSession(self)
@@ -820,4 +838,4 @@ class Harness(object):
     def a_hb_round(self, a):
         """the body of ConnectionHeartbeat.run for ONE round, thread never started, waits scripted"""
         from vf import conn_hb
-        conn_hb.run_round(self, a)
+        conn_hb.run_round([self], [a.get('reply', 'supported')])
